@@ -282,14 +282,14 @@ def r_nvra_glue(model, rep):
     rep.ob("R-NVRA-GLUE", "parse_nvra:returns-groupdict", ok, site=cx.site(f.node),
            msg="" if ok else "parse_nvra does not return the match's groupdict()")
     st = [ev for ev in cx.events if ev.kind == "store" and ev.target == ("sub", gd, ("const", "epoch"))]
-    default0 = any(ev.value == ("boolop", "or", (("sub", gd, ("const", "epoch")), ("const", 0))) for ev in st)
-    toint = any(ev.value == ("call", ("global", "int"), (("sub", gd, ("const", "epoch")),), ()) for ev in st)
     from .builders import _establishes_non_none
-    ok = default0 and toint and not any(g for ev in st for g in T.guard_tests(ev) if not _establishes_non_none(g, mt))
-    if ok:
-        a = [ev for ev in st if ev.value[0] == "boolop"][0]
-        b = [ev for ev in st if ev.value[0] == "call"][0]
-        ok = a.seq < b.seq
+    # the stores into result['epoch'] composed in program order must amount to int(<matched epoch> or 0)
+    orig = ("sub", gd, ("const", "epoch"))
+    cur = orig
+    for ev in sorted(st, key=lambda e: e.seq):
+        cur = T.subst(ev.value, lambda x, c=cur: c if x == orig else None)
+    ok = bool(st) and cur == ("call", ("global", "int"), (("boolop", "or", (orig, ("const", 0))),), ()) \
+        and not any(g for ev in st for g in T.guard_tests(ev) if not _establishes_non_none(g, mt))
     rep.ob("R-NVRA-GLUE", "parse_nvra:epoch-default-int", ok, site=cx.site(f.node),
            msg="" if ok else "epoch must default to 0 and then be converted with int()")
     other = [ev for ev in cx.events if ev.kind == "store" and ev not in st]
@@ -431,7 +431,10 @@ def r_types_table(model, rep, pats, U):
     # parser uses the table
     f = model.function("common", "_parse_release_id_part")
     cx = facts.fctx(model, f)
-    uses = any(ev.loops and ev.loops[-1][1] == ("global", "RELEASE_TYPES") for ev in cx.events)
+    RT = ("global", "RELEASE_TYPES")
+    uses = any(ev.loops and ev.loops[-1][1] == RT for ev in cx.events) or any(
+        T.contains(t, lambda x: x[0] == "comp" and any(g[1] == RT for g in x[3]))
+        for ev in cx.events for t in (ev.value, ev.target) if t is not None)
     rep.ob("R-TYPES-TABLE", "_parse_release_id_part:uses-RELEASE_TYPES", uses, site=cx.site(f.node),
            msg="" if uses else "the release-id parser no longer searches the known-type table")
 
